@@ -41,7 +41,7 @@ func init() {
 		Assumptions:    []string{"panics originate in callees of Validate (format checkers, documented invalid-schema panic)", trustDeps},
 	}
 	Properties["C15"] = PropSpec{
-		Rules:       []Rule{Cow},
+		Rules:       []Rule{Cow, PatternSearch},
 		Explanation: "Static analysis of the whole pattern-cache mechanism on SSA: published snapshots are never written (no MapUpdate/delete on a value derived from the cache load, anywhere in the package); publication happens only in one function, with the mutex in the must-held lockset, after re-loading the snapshot inside the critical section, into a freshly made map that receives every old entry and new entries keyed by String() of the inserted expression; lookups use the requested pattern as key; the miss path compiles exactly the pattern parameter, returns/caches that very value, and returns the compile error unchanged with nothing cached; regexp.Compile/MustCompile/Match* occur nowhere else; the Must variant is only called with constants that the checker itself parses; every call site uses the expression only where the error is known nil.",
 		NotDecided:  "The regexp package itself (matching semantics), and sync/atomic.",
 		Assumptions: []string{"regexp.Regexp.String() returns the source text used to compile (regexp documentation)", "sync.Mutex and atomic.Value are correct"},
@@ -52,6 +52,7 @@ func init() {
 	c07Entries := []string{"Spec", "NewSpecValidator", "(*SpecValidator).Validate"}
 	Properties["C07"] = PropSpec{
 		Rules: []Rule{
+			FieldFed,
 			PanicInventory(c07Entries, []DynEntry{
 				{Func: "(*SchemaValidator).Validate", DataArg: 1},
 				{Func: "(*ParamValidator).Validate", DataArg: 1},
@@ -82,6 +83,7 @@ func init() {
 	c06Entries := []string{"AgainstSchema", "NewSchemaValidator", "(*SchemaValidator).Validate"}
 	Properties["C06"] = PropSpec{
 		Rules: []Rule{
+			FieldFed,
 			PanicInventory(c06Entries, []DynEntry{{Func: "(*SchemaValidator).Validate", DataArg: 1}}, jsonDomain, "JSON value domain: nil, bool, float64, string, json.Number, []interface{}, map[string]interface{}, int64"),
 			NilRule(func(p *core.Prog) []*ssa.Parameter {
 				// caller-supplied values that may be nil: the instance, and the format registry (the code
@@ -118,7 +120,7 @@ func init() {
 
 func init() {
 	Properties["C03"] = PropSpec{
-		Rules:       []Rule{RuleSeq, NoDrop, RunState, SpecPred, GuardScope, ArgRole},
+		Rules:       []Rule{RuleSeq, NoDrop, RunState, SpecPred, GuardScope, ArgRole, DefaultsFieldwise, RawAnalyzer, ExpandRoot},
 		Explanation: "GUARD-SCOPE: every option (StrictPathParamUniqueness, the two swagger strictness switches, skip-schemata) and every path-name exemption predicate of the object validator controls only the effects in its reviewed scope — a rule message or pre-check that becomes control dependent on another option or exemption is reported; SPEC-PRED: for 18 documented rules whose predicate is a conjunction of simple comparisons (path-parameter required/unique/in-path, body-xor-formData, one body parameter, required-property-defined, items present for arrays, duplicate operation ids / parameter names, default response …) the rule's message is control dependent on exactly those comparisons with the right operands and polarity — operands are named structurally (parameter position, declaring type of a field, the conditions under which a flag is set), never by local name — and the path-parameter helpers find placeholders with the placeholder expression in every '/'-segment. RULE-SEQ: every documented rule function is called by (*SpecValidator).Validate and its result is the operand of errs.Merge; every return other than the last is guarded by !Options.ContinueOnErrors && errs.HasErrors(), and the last is dominated by all rule calls. NO-DROP: every *Result produced in spec.go/default_validator.go/example_validator.go/helpers.go is merged, returned, or returned to the pool only where HasErrorsOrWarnings() is false.",
 		NotDecided:  "The predicate inside each rule (value-level).",
 		Assumptions: []string{trustDeps},
@@ -127,7 +129,7 @@ func init() {
 
 func init() {
 	Properties["C10"] = PropSpec{
-		Rules:       []Rule{MapOrder("(*SpecValidator).Validate"), RuleSeq, ModeUse, WarnNeutral, RunState, ResultAlgebra, PoolCtor},
+		Rules:       []Rule{MapOrder("(*SpecValidator).Validate"), RuleSeq, ModeUse, WarnNeutral, RunState, ResultAlgebra, PoolCtor, DefaultsFieldwise},
 		Explanation: "MAP-ORDER: in every function reachable from (*SpecValidator).Validate, a range over a map is left before exhaustion only by pure search loops, and a list filled in map order is sorted before it is rendered into a message (taint propagated through appends, callees' return values and ranges over tainted lists); RULE-SEQ: early returns only under !Options.ContinueOnErrors && errs.HasErrors(), the final return after all rules (so the stop-early run executes a prefix of the same rule sequence: its errors are a subset), warnings bookkeeping deferred before the first rule, options copied per validator and the process-wide default never consulted during validation; WARN-NEUTRAL: no error is added under a test of the warnings of a sub-result that can carry warnings (warnings alone never invalidate); MODE-USE: every read of ContinueOnErrors is consumed by a branch condition of Validate and flows nowhere else (not into a rule, not into the options of a dependency such as the reference expander), so the mode decides when the run stops and never what a rule reports; RUN-STATE: per-run fields of a reused validator are re-initialised; RESULT-ALGEBRA: messages form a text-keyed set (order-insensitive accumulation); POOL-CTOR: spec validation always recycles validators, so a constructor that leaves a field of a borrowed object unassigned on some path makes the outcome depend on what the pool handed out (previous validations, map order, GC).",
 		NotDecided:  "Determinism of the dependencies (analysis, loader); serialisation variants of one document; which member of a cycle a circular-ancestry message names.",
 		Assumptions: []string{trustDeps},
@@ -194,7 +196,7 @@ func init() {
 
 func init() {
 	Properties["C17"] = PropSpec{
-		Rules:       []Rule{KConsistent, OneShot, ResultAlgebra, ArgRole},
+		Rules:       []Rule{KConsistent, OneShot, ResultAlgebra, ResLinear, ArgRole},
 		Explanation: "K-CONSISTENT — at each of the 7 member-validation sites of the object and slice validators the value that extends the parent's path, the value that selects the member's data and the key under which the child's result is merged are the same SSA value, the parent path is the receiver's Path, and the child validator is constructed with that path (SetPath after construction only re-paths the outer validator; the single-schema `items` site, whose location accuracy C17 does not claim, is the one reviewed exception); the error for a missing required member is named <path>.<k> for the k that was not found; MEMBER-GUARD; ONESHOT-EQ — AgainstSchema returns nil exactly on !res.HasErrors() and otherwise CompositeValidationError(res.Errors...) of the same result; RESULT-ALGEBRA — validity is len(Errors)==0 (an invalid verdict carries at least one error), messages are de-duplicated by text, append-only; RES-ALIAS — the composite copies the errors.",
 		NotDecided:  "Best-branch selection text for anyOf/oneOf; that every sub-validator uses its own Path in every message; message wording.",
 		Assumptions: []string{trustDeps},
@@ -213,7 +215,7 @@ func init() {
 		Assumptions: []string{trustDeps},
 	}
 	Properties["C01"] = PropSpec{
-		Rules:       []Rule{Keywords("SchemaValidator", schemaKeywords, "schema_ctor_calls"), NilPath, Counting, Orderings, OrderingsTyped, Pure, ArgRole, TypeTable, AppliesTable, KeywordPosition, HelperField, ObjectRouting, SliceRouting, KeywordRouting, KeywordPred, KeywordGuard, EnumConvert, KConsistent, OneShot, PoolCtor, ResLinear, ResultAlgebra, MapOrder("(*SchemaValidator).Validate", "AgainstSchema")},
+		Rules:       []Rule{PoolAPI, Keywords("SchemaValidator", schemaKeywords, "schema_ctor_calls"), NilPath, Counting, Orderings, OrderingsTyped, Pure, ArgRole, TypeTable, AppliesTable, KeywordPosition, HelperField, ObjectRouting, SliceRouting, KeywordRouting, KeywordPred, KeywordGuard, EnumConvert, KConsistent, OneShot, PoolCtor, ResLinear, ResultAlgebra, MapOrder("(*SchemaValidator).Validate", "AgainstSchema")},
 		Explanation: "Structural necessary conditions of draft-4 agreement, decided on every path: KEYWORDS — each of the 27 supported keywords of the schema is handed by newSchemaValidator to a sub-validator constructor, kept (itself or something built from it) in a field, and that field is read by the sub-validator's Validate/Applies (a keyword that is dropped or stored-but-never-read is a skipped constraint); COUNTING — oneOf/allOf are decided exactly by constant-propagating the post-loop region for every value of the counter of valid alternatives (0..3) and number of members, anyOf returns on the first valid alternative and errs after the loop otherwise, not errs exactly on the IsValid() edge of the sub-result, the counter is incremented once per valid alternative; TYPE-TABLE — the `type` keyword is decided exactly on a table of 246 cases (12 data incl. typed Go numbers × 9 type lists × nullable × format): the type validator, evaluated by constant propagation with its own fields bound to constants, returns an error exactly when draft 4 says the type does not match (integral numbers are integers, Go integers are numbers, nullable admits null, a format does not change the verdict of `type` for non-numeric data); APPLIES-TABLE — each group holding kind-specific keywords (string, number, object, array; identified by the schema keyword its constructor receives) admits exactly the reflect kinds those keywords govern (Applies evaluated for every kind by constant propagation); ROUTING — the object validator is executed on its control flow only, forking on structural atoms (recv.AdditionalProperties==nil, .Allows, .Schema==nil, has(recv.Properties,K), the results of the pattern matcher), methods of the receiver inlined: in every one of the ≈240 consistent configurations that reach the normal return, the generic member (K,V) of the instance is handed to the pattern matcher (which validates it against every matching pattern schema), and a member that is neither declared nor matched is validated against additionalProperties when that is a schema (exact over configurations: two edits that are each behaviour-preserving but together leave a configuration uncovered are reported, each one alone is not), additionalProperties:false raises 'not allowed' exactly for undeclared, unmatched, non-special names; the same enumeration for the array validator: items-as-schema validates every element, items-as-tuple validates position i against schema i, additionalItems (schema / false) applies exactly to the elements following a tuple and never without one; and for `required` (an error exactly for a name that is neither a member nor created from a default, the list being examined whenever it is not empty) and `dependencies` (schema dependency ⇒ the instance is validated against it, property dependency ⇒ an error exactly for each absent dependency, nothing for members that are absent or declare none); NILPATH — keyword groups whose Applies does not depend on the kind must also run for a nil instance (one genuine violation is a known finding); KEYWORD-GUARD — a constraint helper called from a Validate method is guarded only by the presence of its keyword, the type assertion and earlier outcomes, never by the instance value; ENUM-CONVERT — enum membership compares the instance converted to the member's type with that member; K-CONSISTENT/MEMBER-GUARD — every member (property, pattern/additional property, list/tuple/additional item) is validated against its schema under its own key and not filtered by its value or name; MAP-ORDER — no order-dependent early exit from map ranges in the schema validators; D-BOUND on the element loops (via C06); ONESHOT-EQ — AgainstSchema is NewSchemaValidator(...).Validate plus HasErrors; POOL-CTOR — no constraint field of a recycled validator is left from a previous schema; RES-LINEAR — no verdict is read from, merged from or released twice through a result that already went back to the pool (directly or through a variable that aliases it, e.g. the best-failure of anyOf/oneOf), which is what turns a later, unrelated validation into a wrong verdict; RESULT-ALGEBRA — every merge helper (Merge, mergeForField, mergeForSlice, MergeAsErrors…) applies the documented effects for every non-nil operand on every path, so the errors of a member or item can never be lost on the way to the verdict (for instance when schemata recording is switched off).",
 		NotDecided:  "Whether each keyword's predicate agrees with draft 4 (oneOf counting, integer-vs-number, enum equality across numeric types, regexp search semantics, format registries…): value-level, out of reach of static analysis; the checks decide that no keyword group is skipped, mis-keyed or conditioned on the wrong thing.",
 		Assumptions: []string{trustDeps},
@@ -237,7 +239,7 @@ func init() {
 
 func init() {
 	Properties["C09"] = PropSpec{
-		Rules:       []Rule{Traverse, ResetBetween, RuleSeq, GuardScope, ArgRole, KeywordPosition, Keywords("ParamValidator", simpleKeywords, "param_ctor_calls"), Keywords("HeaderValidator", simpleKeywords, "header_ctor_calls"), Keywords("itemsValidator", simpleKeywords, "items_ctor_calls")},
+		Rules:       []Rule{Traverse, ResetBetween, ExpandRoot, CloneFaithful, ValueOptions, RuleSeq, GuardScope, ArgRole, KeywordPosition, Keywords("ParamValidator", simpleKeywords, "param_ctor_calls"), Keywords("HeaderValidator", simpleKeywords, "header_ctor_calls"), Keywords("itemsValidator", simpleKeywords, "items_ctor_calls")},
 		Explanation: "TRAVERSE: (a) the recursive descent of both walkers calls itself on schema.Items.Schema, each of Items.Schemas, each of Properties, AdditionalProperties.Schema and each of AllOf, with a path that extends the current one and contains the loop key/index (so members get distinct visited-set keys), merged with Merge; the schema's own default/example is validated by a validator built from that schema; (b) the default and the example walker are compared step by step (callee, argument provenance, guard conditions, path shape): every traversal step of the default walker exists in the example walker under the same guards; (c) a leaf verdict on a default enters as Merge (error), on an example as MergeAsWarnings, and both walkers are merged with Merge in Validate (RULE-SEQ); (d) the skip predicate isVisited may answer true only on the found edge of the lookup of that path; RESET-BETWEEN: every top-level walk (per parameter, per response schema, per definition) starts from an emptied visited set on every path, loops included, so that a path of one walk can never be taken for a visited path of another.",
 		NotDecided:  "That each leaf validation is right (C01/C16); the behaviour of the recursion cut-off on circular specifications.",
 		Assumptions: []string{trustDeps},
